@@ -74,7 +74,14 @@ class Or(Constraint):
     def __init__(self, **data) -> None:
         super().__init__(**data)
 
-        asst = z3.Or(_constraints_to_list_of_assertions(self.list_of_constraints))
+        # each operand as a whole: a constraint that holds several assertions is
+        # the conjunction of them (as in Not and Xor)
+        asst = z3.Or(
+            [
+                z3.And(_get_assertions(constraint))
+                for constraint in self.list_of_constraints
+            ]
+        )
 
         self.set_z3_assertions(asst)
 
